@@ -16,13 +16,13 @@ import (
 	"strings"
 
 	"github.com/containerd/stargz-snapshotter/cache"
+	dbmeta "github.com/containerd/stargz-snapshotter/cmd/containerd-stargz-grpc/db"
 	"github.com/containerd/stargz-snapshotter/estargz"
 	"github.com/containerd/stargz-snapshotter/estargz/externaltoc"
 	"github.com/containerd/stargz-snapshotter/estargz/zstdchunked"
 	fsreader "github.com/containerd/stargz-snapshotter/fs/reader"
 	"github.com/containerd/stargz-snapshotter/metadata"
 	memorymeta "github.com/containerd/stargz-snapshotter/metadata/memory"
-	dbmeta "github.com/containerd/stargz-snapshotter/cmd/containerd-stargz-grpc/db"
 	digest "github.com/opencontainers/go-digest"
 	bolt "go.etcd.io/bbolt"
 )
